@@ -24,6 +24,7 @@ import cloudpickle as cp
 
 from . import lockstep
 from . import rt as _rt
+from .paths import REPO
 
 
 class StepBudgetExceeded(KeyboardInterrupt):
@@ -409,7 +410,7 @@ class SimEnv:
             self.interleave()
 
     # ---------------------------------------------------------------- running
-    def make_tracer(self, files, count_prefix="/repo/pydra/"):
+    def make_tracer(self, files, count_prefix=REPO + "/pydra/"):
         env = self
 
         plines = self.probe_lines
@@ -524,7 +525,7 @@ class SimEnv:
         self.sim.shutdown()
 
 
-def run_budgeted(fn, max_calls=3_000_000, prefix="/repo/pydra/"):
+def run_budgeted(fn, max_calls=3_000_000, prefix=REPO + "/pydra/"):
     """Run fn() in this process under a deterministic budget of pydra function calls
     (catches pure-Python spins such as a non-terminating sort without a wall clock).
     Returns ("ok", value) | ("exc", info) | ("hang", msg)."""
